@@ -419,6 +419,16 @@ fn print(r: &Value) -> Vec<u8> {
             o.extend(join(parts, b';'));
             o.extend(b"\x1b\\");
         }
+        "sgr" => {
+            o.extend(b"\x1b[");
+            o.extend(r["p"].as_str().unwrap_or("").as_bytes());
+            o.push(b'm');
+        }
+        "facerep" => {
+            o.extend(b"\x1bP1$r");
+            o.extend(r["p"].as_str().unwrap_or("").as_bytes());
+            o.extend(b"m\x1b\\");
+        }
         "paste" => {
             o.extend(b"\x1b[200~");
             o.extend(vbytes(&r["text"]));
@@ -582,6 +592,8 @@ fn c_report(r: &Value) -> String {
             b(&r["upper"])
         ),
         "paste" => format!("(RPaste {})", cbytes(&vbytes(&r["text"]))),
+        "sgr" => format!("(RSgr {})", cbytes(r["p"].as_str().unwrap_or("").as_bytes())),
+        "facerep" => format!("(RFaceReport {})", cbytes(r["p"].as_str().unwrap_or("").as_bytes())),
         _ => "(RLit [])".to_string(),
     }
 }
@@ -681,8 +693,37 @@ fn g_name(rng: &mut Rng) -> Vec<u64> {
     (0..n).map(|_| if rng.chance(1, 8) { rng.below(256) } else { 32 + rng.below(95) }).collect()
 }
 
+/// a well-formed, expressible SGR parameter string (1..4 units, semicolon and colon forms)
+fn g_sgr(rng: &mut Rng) -> String {
+    let mut parts = vec![];
+    for _ in 0..1 + rng.below(4) {
+        let code = *rng.pick(&[38u64, 48, 58]);
+        let c = |rng: &mut Rng| g_chan(rng);
+        parts.push(match rng.below(16) {
+            0 => "0".to_string(),
+            1 => "".to_string(),
+            2 => (*rng.pick(&["1", "22", "3", "23", "5", "25", "9", "29", "01"])).to_string(),
+            3 => (*rng.pick(&["4", "21", "24"])).to_string(),
+            4 => format!("4:{}", rng.below(6)),
+            5 => format!("{}", 30 + rng.below(8)),
+            6 => format!("{}", 40 + rng.below(8)),
+            7 => format!("{}", 90 + rng.below(8)),
+            8 => format!("{}", 100 + rng.below(8)),
+            9 => format!("{};5;{}", code, rng.below(256)),
+            10 | 11 => format!("{};2;{};{};{}", code, c(rng), c(rng), c(rng)),
+            12 => format!("{}:5:{}", code, rng.below(256)),
+            13 => format!("{}:2:{}:{}:{}", code, c(rng), c(rng), c(rng)),
+            14 => format!("{}:2::{}:{}:{}", code, c(rng), c(rng), c(rng)),
+            _ => (*rng.pick(&["2", "8", "53", "59"])).to_string(),
+        });
+    }
+    parts.join(";")
+}
+
 fn g_report(rng: &mut Rng) -> Value {
-    match rng.below(16) {
+    match rng.below(18) {
+        16 => json!({"t": "sgr", "p": g_sgr(rng)}),
+        17 => json!({"t": "facerep", "p": g_sgr(rng)}),
         0 => {
             let tab = literal_table();
             // terminal entries only (the others are generated by the ambiguity cases)
